@@ -61,14 +61,17 @@ ALLOWED = {
 }
 
 
-def to_pgpy_opts(o, label):
+def to_pgpy_opts(o, label, created=None):
     from pgpy.constants import KeyFlags, SymmetricKeyAlgorithm, HashAlgorithm, CompressionAlgorithm, KeyServerPreferences
     allowed = ALLOWED[label]
     out = {}
     for k, v in o.items():
         if k not in allowed:
             continue
-        if k == 'expires' or k == 'key_expiration':
+        if k == 'expires' and created is not None and v % 2 == 0 and 0 < created and created + v < (1 << 32) - 1:
+            # the documented alternative form: the moment of expiry as a datetime (encoded as seconds after the SIGNATURE's creation)
+            out[k] = datetime.datetime.fromtimestamp(created + v, datetime.timezone.utc)
+        elif k == 'expires' or k == 'key_expiration':
             out[k] = datetime.timedelta(seconds=v)
         elif k == 'notation':
             out[k] = {n: (bytearray(bytes.fromhex(x[1])) if isinstance(x, list) else x) for n, x in v.items()}
@@ -162,7 +165,7 @@ def eval_forward(c, rec):
         doc = doc.decode('latin-1').encode('utf-8')
     names = sorted(k for k in o if k in ALLOWED[label])
     try:
-        po = to_pgpy_opts(o, label)
+        po = to_pgpy_opts(o, label, c['created'])
         t = sigkit.make_triple(label, c['kid'], c['halg'], doc=doc, signing_subkey=subkey, opts=po, created=c['created'], uid=c['uid'])
     except Exception as e:   # noqa
         rec.note('rejected-config/%s/%s' % (label, harness.exc_key(e)))
